@@ -1,4 +1,4 @@
-import H2T.Render
+import H2T.DomTree
 
 open H2T
 
@@ -87,9 +87,33 @@ partial def depthOf : Node → Nat
   | .elem _ _ _ ks => 1 + (ks.map depthOf).foldl max 0
   | _ => 1
 
+/-! canonical token form of a render tree (the harness produces the same tokens from the implementation's `Debug` output) -/
+def tokStr (s : List Ch) : List String := toString s.length :: s.map (fun c => toString c.cp)
+def tokCol : Option Css.Rgb → String
+  | none => "-"
+  | some c => toString c.r ++ "," ++ toString c.g ++ "," ++ toString c.b
+def tokStyle (st : Style) : List String :=
+  [(match st.ws with | none => "-" | some .normal => "n" | some .pre => "p" | some .preWrap => "w"),
+   (if st.pre then "1" else "0"), tokCol st.fg, tokCol st.bg]
+def tokKind : Kind → List String
+  | .container => ["container"] | .link h => "link" :: tokStr h | .em => ["em"] | .strong => ["strong"] | .strike => ["strike"]
+  | .code => ["code"] | .block => ["block"] | .header l => ["header", toString l] | .div => ["div"] | .quote => ["quote"]
+  | .ul => ["ul"] | .ol s => ["ol", toString s] | .dl => ["dl"] | .dt => ["dt"] | .dd => ["dd"] | .li => ["li"] | .sup => ["sup"]
+partial def tokNode : RNode → List String
+  | .text st s => "T" :: tokStyle st ++ tokStr s
+  | .img st src t => "I" :: tokStyle st ++ tokStr src ++ tokStr t
+  | .br st => "B" :: tokStyle st
+  | .frag n => "F" :: tokStr n
+  | .box st k kids => "X" :: tokStyle st ++ tokKind k ++ [toString kids.length] ++ kids.flatMap tokNode
+  | .cell st cs kids => "C" :: tokStyle st ++ [toString cs, toString kids.length] ++ kids.flatMap tokNode
+  | .row st cells => "R" :: tokStyle st ++ [toString cells.length] ++ cells.flatMap tokNode
+  | .tbody st rows => "Y" :: tokStyle st ++ [toString rows.length] ++ rows.flatMap tokNode
+  | .table st rows n => "TB" :: tokStyle st ++ [toString n, toString rows.length] ++ rows.flatMap tokNode
+
 def handle (line : String) : String :=
   if line.startsWith "CSS" then handleCss ((line.trimAscii.toString.splitOn " ").filter (· ≠ "") |>.drop 1) else
-  let toks := (line.trimAscii.toString.splitOn " ").filter (· ≠ "")
+  let wantTree := line.startsWith "TREE"
+  let toks := ((line.trimAscii.toString.splitOn " ").filter (· ≠ "")).drop (if wantTree then 1 else 0)
   let p : P (Nat × Nat × Nat × Option DecoFam × Nat × Nat × Nat × Option (List Char) × Option (List Char) × List Ch × Node) := do
     let w ← nat; let flags ← nat; let deco ← nat
     let fam ← (if deco = 3 then do
@@ -114,6 +138,14 @@ def handle (line : String) : String :=
       | some f => Deco.ofFam f
       | none => if deco = 1 then Deco.rich else if deco = 2 then Deco.trivial else Deco.plain
     let ci : CharInfo := { lookup := fun cp => (table.find? (·.cp = cp)).getD ⟨cp, 1, false, false⟩ }
+    if wantTree then
+      match domTree cfg.decorate (useDoc == 1) acss ucss ci (depthOf dom + 1) dom with
+      | .ok tree => "tree " ++ " ".intercalate (tokNode tree)
+      | .error .cssErr => "csserr"
+      | .error (.panic s) => "panic " ++ s
+      | .error (.hang s) => "hang " ++ s
+      | .error _ => "bad-outcome"
+    else
     match renderDom cfg d w (useDoc == 1) acss ucss ci (depthOf dom + 1) dom with
     | .lines ls => "ok " ++ toString ls.length ++ " | " ++ " | ".intercalate (ls.map (if flags / 256 % 2 == 1 then showLineRich else showLine))
     | .narrow => "narrow"
